@@ -88,6 +88,7 @@ PROPS['C20']={
  'assumptions':UNIT_ASSUME+['format!/Display of usize and str modelled precisely from the format_args! byte-code; str::parse::<usize> modelled (optional +, digits, overflow)'],
  'obligations':[
   {'name':'roundtrip','module':'harness.C20','cls':'RoundTrip','quick':{'max_t':3,'max_p':4},'thorough':{'max_t':5,'max_p':6}},
+  {'name':'roundtrip_long','module':'harness.C20','cls':'RoundTrip','quick':{'lens':[9,10,11,99,100,101]},'thorough':{'lens':[9,10,11,99,100,101,999,1000,1001,9999,10000]}},
   {'name':'injective','module':'harness.C20','cls':'Injective','quick':{'max_t':2,'max_p':3},'thorough':{'max_t':3,'max_p':4}},
   {'name':'unpack_prefix','module':'harness.C20','cls':'UnpackTotal','quick':{'n':6,'shape':'prefix'},'thorough':{'n':9,'shape':'prefix'}},
   {'name':'unpack_free','module':'harness.C20','cls':'UnpackTotal','quick':{'n':7,'shape':'free'},'thorough':{'n':8,'shape':'free'}},
